@@ -20,6 +20,7 @@ RULE = (
     "a symbolicExpressionSizes table (patch-created entries only)."
     " Second module in the IR as in C01: its symbolic expressions and offset-keyed tables must be unchanged."
     " 8% of the modules are big-endian MIPS32 ELF (%hi/%lo operands carry HI/LO attributes)."
+    " 1% of the modules have 30-89 code blocks."
 )
 ASSUMPTIONS = [
     "annotations keyed at offset == block size are not generated (they annotate no byte)",
@@ -32,7 +33,7 @@ REQUIRED_COUNTERS = ["applies", "expressions_compared",
 
 
 def gen_case(rng, tier, index):
-    case = rwbase.gen_case(rng, tier, index, mips_p=0.08)
+    case = rwbase.gen_case(rng, tier, index, mips_p=0.08, big_p=0.01)
     if rng.random() < 0.2:
         # a module that has no symbolicExpressionSizes table: the sizes of
         # what patches add must still be recorded, for every patch
